@@ -17,7 +17,7 @@ CLAIMS = {
          "lg_k 2-4 (code is parametric), at most two inputs (longer sequences follow from the model being a commutative idempotent fold - argued, not solved); coupon-mode inputs are decided only in the thorough tier (on this machine: unexplored) - their coupon replay goes through the C02 harnesses; HipEstimator::update / rebuild_cached_values replaced by recorders in register harnesses.", "DESIGN.md section 4 C03"),
  "C04": ("ThetaHashTable steps (probe sequence, try_insert, resize, rebuild, trim, reset) from arbitrary valid tables at nominal size 2-4 with symbolic hashes and theta, the size arithmetic for every lg_k, hash_and_screen against the reference digest, and compact()/estimate on arbitrary small sketches.",
          "Table instantiated below the public minimum lg_k = 5 (code parametric in the sizes); std select_nth_unstable / sort_unstable replaced by reference insertion-sort models of their contracts.", "DESIGN.md section 4 C04"),
- "C05": ("Quick tier: flavor / window-offset / pseudo-phase arithmetic against wide-integer specifications for every lg_k 4..=26 and every coupon count; bit counting; PairTable insert / delete steps over every valid layout of 4/8 slots and get_items; row/column derivation from the hash; one CpcSketch update in each zone (early-zone inverted logic, window bit, late surprising value) from a windowed state at lg_k = 4 with a symbolic window, a concrete window offset (0, 3, 56) and at most one surprising value; the window move in two composed parts - update_windowed calls move_window exactly on the update after which floor((8C - 19K) / 8K) changes (lg_k = 4, offsets 0, 3, 55), and move_window re-encodes an ARBITRARY matrix exactly (lg_k = 2, the old offset symbolic over 0..=55 plus the concrete offsets 0, 7, 30, 55, <= 2 surprising values per row; thorough: <= 4 per row: new window bytes, the surprising values handed to the table and first_interesting_column = min(offset, lowest surprising column) denote the matrix that went in). Thorough tier adds the same step from an arbitrary windowed state with <= 2 surprising values in any table layout (one instance per window offset), a 3-step history from empty and the flavor round trips (each more than 20 min on this machine; reported UNEXPLORED when they exceed the caps).",
+ "C05": ("Quick tier: flavor / window-offset / pseudo-phase arithmetic against wide-integer specifications for every lg_k 4..=26 and every coupon count; bit counting; PairTable insert / delete steps over every valid layout of 4/8 slots and get_items; row/column derivation from the hash; one CpcSketch update in each zone (early-zone inverted logic, window bit, late surprising value) from a windowed state at lg_k = 4 with a symbolic window, a concrete window offset (0, 3, 56) and at most one surprising value; the Sparse -> windowed promotion in two composed parts (update_sparse promotes exactly when determine_flavor of the new count leaves Sparse, for every lg_k 4..=26 and coupon count; promote_sparse_to_windowed re-encodes an arbitrary 4-slot table exactly at lg_k = 4) and the window move in two composed parts - update_windowed calls move_window exactly on the update after which floor((8C - 19K) / 8K) changes (lg_k = 4, offsets 0, 3, 55), and move_window re-encodes an ARBITRARY matrix exactly (lg_k = 2, the old offset symbolic over 0..=55 plus the concrete offsets 0, 7, 30, 55, <= 2 surprising values per row; thorough: <= 4 per row: new window bytes, the surprising values handed to the table and first_interesting_column = min(offset, lowest surprising column) denote the matrix that went in). Thorough tier adds the same step from an arbitrary windowed state with <= 2 surprising values in any table layout (one instance per window offset), a 3-step history from empty and the flavor round trips (each more than 20 min on this machine; reported UNEXPLORED when they exceed the caps).",
          "Sketch state at lg_k = 4 with <= 2 surprising values; the window-moving step is decided compositionally: move_window over the matrix returned by build_bit_matrix (replaced by an arbitrary matrix; build_bit_matrix itself is compared with the specification matrix in the step harnesses) with PairTable::maybe_insert as a recorder and refresh_kxp (floats) cut, at lg_k = 2; the end-to-end form (real table, lg_k = 4) stays thorough-tier and unexplored on this machine.", "DESIGN.md section 4 C05"),
  "C06": ("Quick tier: the three OR kernels of the CPC union with row folding (symbolic matrices, window, offset and table), the golden-ratio table walk stride for every table size, the first update of a fresh union with a Sparse sketch (same, larger and smaller lg_k: lg_k, coupon count, folded coupon), and Hybrid / Pinned / Sliding inputs into a bit-matrix union: the union's matrix is the OR of the matrix the input denotes. Thorough tier adds two Sparse inputs (reduce_k of a non-empty accumulator), Sparse / Sliding-offset-3 inputs into a matrix, to_sketch() from a bit matrix and histories through the public update path (13 GB and more; reported UNEXPLORED when they exceed the caps).",
          "lg_k 4-6; table layouts of the Sparse inputs concrete per instance (coupon's home slot fixed, all other bits symbolic); CpcSketch::update_hip cut (float HIP accumulators are not read by the union); more than two inputs follow from associativity of OR (argued).", "DESIGN.md section 4 C06"),
